@@ -32,6 +32,7 @@ def floors(m, tier):
             "non-empty strict-subset results": (c.get("expected_strict_subset", 0), u * k // 8),
             "match() evaluations": (c.get("match_calls", 0), u * 5),
             "match() True": (c.get("match_true", 0), u),
+            "match() on forced-type Sids": (c.get("match_forced_type", 0), 20),
             "typed non-search lookups": (c.get("typed_nonsearch", 0), u),
             "alias in last segment of a typed non-search Sid": (c.get("typed_nonsearch_alias", 0), 5)}
 
@@ -82,7 +83,7 @@ def install(rec, model, state):
             rec.unspec("url_metachar_in_filter")
             return
         try:
-            forms = [str(u) for u in tools.unfold_search(str(search))]
+            forms = [str(u) for u in tools.unfold_search(str(search)) if u and "?" not in str(u)]   # (unfolded forms are typed, query-free searches)
         except SpilException:
             rec.count("unfold_raised")
             return
@@ -102,15 +103,17 @@ def install(rec, model, state):
     monitors.wrap_generator_method(Finder, "find", on_done)
 
 
-def check_match(rec, model, Sid, x_str, s):
+def check_match(rec, model, Sid, x_str, s, forced_type=None):
     from spil.sid.read import tools
     from spil import SpilException
     from lib.refmodel import gmatch
-    x = Sid(x_str)
+    x = Sid((forced_type + ":" + x_str) if forced_type else x_str)
     if not x:
         return
+    if forced_type:
+        rec.count("match_forced_type")
     rec.count("match_calls")
-    case = {"sid": x_str, "search": s, "mode": "match"}
+    case = {"sid": x_str, "search": s, "mode": "match", "forced_type": forced_type}
     try:
         got = x.match(s)
     except SpilException:
@@ -122,7 +125,7 @@ def check_match(rec, model, Sid, x_str, s):
         rec.unspec("url_metachar_in_filter")
         return
     try:
-        forms = [str(u) for u in tools.unfold_search(s)]
+        forms = [str(u) for u in tools.unfold_search(s) if u and "?" not in str(u)]
     except Exception:
         return
     exp = any(gmatch(f, str(x)) for f in forms)
@@ -147,7 +150,7 @@ def worker(args):
         rec.ev()
         try:
             if c.get("mode") == "match":
-                check_match(rec, model, Sid, c["sid"], c["search"])
+                check_match(rec, model, Sid, c["sid"], c["search"], c.get("forced_type"))
             else:
                 list(FindInList(c["list"]).find(c["search"], as_sid=False))
         except Exception:
@@ -200,6 +203,21 @@ def worker(args):
                     s, info = searchgen.make_search(rng, model, vocab, t, allow_last=False, pool=names or universe.UNI_NAMES, small=True)
                 if ">" in s or "<" in s:
                     continue
+                if k % 17 == 0 and full:
+                    # junk-pair case: two untypable alternatives in one segment, and list entries carrying exactly those junk values
+                    base = rng.choice(full).split("/")
+                    i = rng.randrange(len(base))
+                    jz, jy = base[:], base[:]
+                    jz[i], jy[i] = "zz", "yy"
+                    s_j = "/".join(base[:i] + [base[i] + ",zz,yy"] + base[i + 1:])
+                    rec.ev()
+                    rec.count("junk_pair_cases")
+                    state["variant"] = vname + "+junk_pair"
+                    try:
+                        list(FindInList(list(L) + ["/".join(jz), "/".join(jy)]).find(s_j, as_sid=False))
+                    except Exception:
+                        pass
+                    state["variant"] = vname
                 rec.ev()
                 try:
                     if rng.random() < 0.3:
@@ -210,7 +228,13 @@ def worker(args):
                     got = None
                 if k % 2 == 0:
                     cand = [str(g) for g in got] if (got and rng.random() < 0.5) else full
-                    check_match(rec, model, Sid, rng.choice(cand), s)
+                    xs = rng.choice(cand)
+                    check_match(rec, model, Sid, xs, s)
+                    ts = model.all_types(xs)
+                    if len(ts) > 1:
+                        # the same string as a Sid of another type that accepts it: found by s in [its string] all the same
+                        check_match(rec, model, Sid, xs, s, forced_type=ts[-1].name)
+                        check_match(rec, model, Sid, xs, xs, forced_type=ts[-1].name)
                 if u == 0 and k == 0:
                     rec.sample({"variant": vname, "list_size": len(L), "search": s, "found": [str(g) for g in (got or [])][:5]})
     return rec.result()
